@@ -22,7 +22,7 @@ func init() {
 // C15 — zhttp picks the documented source and reports undecodable requests as one issue.
 
 func C15_Jobs() []string {
-	return []string{"dispatch", "dispatch-real/json", "dispatch-real/form", "dispatch-real/query", "bad-json", "bad-form", "empty-object", "query-values", "form-values"}
+	return []string{"dispatch", "dispatch-real/json", "dispatch-real/form", "dispatch-real/query", "bad-json", "bad-form", "empty-object", "query-values", "form-values", "ptr-dest"}
 }
 func C15_Covers() []string { return []string{"json", "form", "query", "decode-failure"} }
 
@@ -137,6 +137,24 @@ func C15_Run(job string) {
 		v.Assert(n == 1 && len(errs["$root"]) == 1 && errs["$root"][0].Code == code, "C15:decode-failure-not-exactly-one-top-level-issue")
 		v.Assert(ran == 0, "C15:schema-ran-after-decode-failure")
 		v.Assert(d.A == 42 && d.Name == "keep", "C15:destination-written-after-decode-failure")
+	case "ptr-dest":
+		// the same request parsed into a pointer destination through Ptr(Struct): one decode, same record
+		front := []string{"json", "form", "query"}[v.Choice("front", 3)]
+		var req = c11Request("POST", "application/json", `{"a":5,"name":"n"}`, "")
+		switch front {
+		case "form":
+			req = c11Request("POST", "application/x-www-form-urlencoded", "a=5&name=n", "")
+		case "query":
+			req = c11Request("GET", "", "", "a=5&name=n")
+		}
+		var pd *c15Dest
+		errs := z.Ptr(z.Struct(z.Schema{"a": z.Int().Required(), "name": z.String().Required()})).Parse(zhttp.Request(req), &pd)
+		v.Cover(front)
+		v.Assert(errs == nil, "C15:unexpected-issues")
+		v.Assert(pd != nil && pd.A == 5 && pd.Name == "n", "C15:wrong-source-read")
+		var pd2 *c15Dest
+		bad := z.Ptr(z.Struct(z.Schema{"a": z.Int()})).Parse(zhttp.Request(c11Request("POST", "application/json", "{", "")), &pd2)
+		v.Assert(len(bad["$root"]) == 1 && bad["$root"][0].Code == "invalid_json" && pd2 == nil, "C15:decode-failure-not-exactly-one-top-level-issue")
 	case "empty-object":
 		var d c15Dest
 		d.A = 42
